@@ -132,8 +132,9 @@ def gen_op(r: random.Random, idx: int) -> dict:
         name = r.choice(pool) if r.random() > 0.04 else r.choice(ODD_NAMES)
         kind = "string" if loc == "header" and r.random() < 0.8 else r.choice(["string", "string", "integer"])
         params.append({"name": name, "in": loc, "required": r.random() < 0.35, "kind": kind})
-    if path_level and r.random() < 0.04:
-        params.append(dict(path_level[0]))              # operation-level "override" of a path-level parameter
+    if path_level and r.random() < 0.12:
+        # operation-level override of a path-level parameter (same name, same `in`; F4 repaired: ONE argument, the operation-level one)
+        params.append(dict(path_level[0], required=r.random() < 0.5))
     if r.random() < 0.04 and pvars:
         params.append({"name": pvars[0], "in": "query", "required": False, "kind": "string"})   # same name, other location
     body = None
